@@ -328,7 +328,7 @@ func (set *SortedSet) Subtract(others []*SortedSet) *SortedSet {
 // SortedSetParam is a composite object used for Intersect and Union function
 type SortedSetParam struct {
 	Set    *SortedSet
-	Weight int
+	Weight float64
 }
 
 // Union uses divided & conquer to calculate the union of multiple sets
